@@ -4,6 +4,10 @@ proof:           lean/PPProofs/Props/C04.lean — the growth loop of Forward.par
                  the last element of a strictly growing chain of peek matches started from the failure seed
                  (growLoop_peek_spec, growLoop_round_grows), a recursion without base case fails with a ParseException in
                  the first round (lr_no_base); a non-recursive body yields its own outcome (lr_transparent_nonrec).
+                 lean/PPProofs/Props/C04Iter.lean — a DIRECT left-recursive rule E <<= (E + tail) | base equals the iterative
+                 grammar base (tail)*: for arbitrary base/tail functions at the growth-loop level (lr_direct_eq_iterative,
+                 _acts, _budget), and for the transcribed parser parseLR vs the model's parse of And[b, ZeroOrMore(And[t..])]
+                 under explicit flag / pre-parse hypotheses (parseLR_direct_eq_parse_iterative(_ws)_partial).
 correspondence:  the seed-growing model parseLR vs the real code under enable_left_recursion(None/1/2) on generated DIRECT
                  left-recursive rule sets (1-3 levels, several operators, Or/MatchFirst bodies, grouped/flat, '-', parens).
 search (oracle): the real LR parse vs the real parse of the mechanically derived repetition grammar (base (op tail)*):
@@ -63,7 +67,8 @@ META = dict(
     note="Trusted: Lean kernel; axioms propext/Classical.choice/Quot.sound; the seed-growing model (in-growth memo entries as "
          "an environment; finished Forwards re-evaluated, so the memo capacity does not occur) validated differentially "
          "against the real LR mode with capacities None/1/2 on every run.",
-    technique="Lean 4 proof (growth-loop chain invariant) over a transcribed model; differential correspondence in LR mode; "
+    technique="Lean 4 proof (growth-loop chain invariant; lock-step simulation growth loop = repetition loop) over a "
+              "transcribed model; differential correspondence in LR mode; "
               "LR-vs-iterative-grammar oracle on the real code",
     design="§5 C04",
 )
